@@ -87,7 +87,7 @@ func (s *Session) WriteMessage(req *pool.Message) error {
 func (s *Session) WriteMulticastMessage(*pool.Message, *net.UDPAddr, ...coapNet.MulticastOption) error {
 	return errors.New("multicast not modelled in udpw")
 }
-func (s *Session) Run(*client.Conn) error      { return nil }
+func (s *Session) Run(*client.Conn) error        { return nil }
 func (s *Session) AddOnClose(f client.EventFunc) { s.onClose = append(s.onClose, f) }
 func (s *Session) SetContextValue(k, v interface{}) {
 	s.values[k] = v
